@@ -276,6 +276,15 @@ func TestVerifC05_ViaRetry(t *testing.T) {
 		}
 		// CONNECT must carry the requested keep-alive whatever the ping interval of the reconnecting client is
 		// (intervals of seconds: no ping is ever due within a case)
+		if rapid.IntRange(0, 2).Draw(rt, "maxPayload") == 0 {
+			// a payload limit on the clients, and some messages over it - also ones submitted before any client exists
+			c.Cfg.MaxPayload = 16
+			for i := range c.Steps {
+				if c.Steps[i].Kind == "pub" && rapid.IntRange(0, 2).Draw(rt, "over") == 0 {
+					c.Steps[i].Extra = rapid.IntRange(12, 40).Draw(rt, "overBy")
+				}
+			}
+		}
 		c.Cfg.KeepAliveS = rapid.SampledFrom([]int{0, 0, 60, 65535}).Draw(rt, "keepAliveS")
 		c.Cfg.PingMs = rapid.SampledFrom([]int{0, 0, 2000, 90000}).Draw(rt, "pingMs")
 		return c
